@@ -5,7 +5,7 @@
 (* states (total length, carry-buffer fill) and the digest the reference   *)
 (* rule gives; the Go replayer injects each state through the verif hook.  *)
 (***************************************************************************)
-EXTENDS XXH32, TLC, Json
+EXTENDS XXH32Machine, TLC, Json
 
 \* 64-bit totals as limbs <<l0,l1,l2,l3>>
 T32(k) == Add64(<<0, 0, 1, 0>>, k)                 \* 2^32 + k
